@@ -5,7 +5,7 @@ composing C13 (routing), C15 (placement, quotas), C16 (tenant keys), C17 (fan-ou
 (`KInv`, `OpIn`, `SameSet`, `Inv`, `Rel`, `StepOK` …) is defined in `Lemmas.lean` / `Refine.lean`.
 Notes: notes/ClusterCompose.md.
 -/
-import SemaModel.ClusterCompose.Lemmas
+import SemaModel.ClusterCompose.Readout
 namespace Sema.ClusterCompose
 open Sema List
 
@@ -27,5 +27,140 @@ theorem Cluster_entry_independent (h : Bytes → Nat) (cfg : Cfg) (servers : Nam
   have e1 := run_canonical h cfg servers S hS hnt H c hK hin
   have e2 := run_canonical h cfg servers S hS hnt H' c hK hin'
   exact ⟨e1, by rw [e1, e2, run_const_entry h cfg S hsame c]⟩
+
+/-! ## 2. the cluster refines a plain map of collections
+
+`Inv r c` (Refine.lean): every record sits under its own key at `owner(user)`; every shard directory
+sits at `owner(shard id)` and is listed in the record of its collection; the shard ids of a record
+are distinct; point ids are unique per collection (C17's `Uniq` of the gathered collection).
+`Rel r m c`: read through the routing function, the cluster IS the reference map `m` (same
+collections, same quota, the listed shards together hold exactly the collection's points, the
+per-user collection count agrees).  `HistOK`: user ids without '/', and every insert satisfies
+`InsertOK` (ids distinct within the batch and new to the collection — the API's assumption —, C15's
+`fits`, fresh shard uuids).  `Agree`: the cluster's response equals the reference map's wherever the
+reference map determines it. -/
+
+/-- **Cluster_refines_collection.**  For every history of API calls entered through ANY nodes
+(all configured with the members of `S`, `NoTies` on the routed keys): the refinement invariant and
+the refinement relation hold again afterwards, and every response the reference map determines —
+created / exists / quota reached, not found, the failed lists of update and delete (C17_failed_*:
+exactly the requested ids the collection does not hold, "not found"), an insert that leaves no
+failed range, point quota reached — is the cluster's response. -/
+theorem Cluster_refines_collection (h : Bytes → Nat) (cfg : Cfg) (servers : Name → List Name) (S : List Name)
+    (K : Bytes → Prop) (hS : ∀ n, SameSet (servers n) S) (hnt : ∀ key, K key → C13.NoTies h key S)
+    (c : Cluster) (m : Ref) (hK : KInv K c) (hI : Inv (routeOf h S) c) (hR : Rel (routeOf h S) m c)
+    (H : List Req) (hin : HistIn K H) (hok : HistOK cfg (routeOf h S) c m H) :
+    Inv (routeOf h S) (run h cfg servers c H).1 ∧ Rel (routeOf h S) (refRun m H).1 (run h cfg servers c H).1 ∧
+      Agree (refRun m H).2 (run h cfg servers c H).2 := by
+  rw [run_canonical h cfg servers S hS hnt H c hK hin]
+  exact run_refines h cfg S H c m hI hR hok
+
+/-- the empty cluster refines the empty map: histories may start there -/
+theorem Cluster_refines_init (r : Bytes → Name) (K : Bytes → Prop) :
+    Inv r Cluster.empty ∧ Rel r [] Cluster.empty ∧ KInv K Cluster.empty :=
+  ⟨inv_empty r, rel_empty r, ⟨fun _ _ _ h => by simp [Cluster.empty, dbGet] at h, fun _ _ _ h => by simp [Cluster.empty, dbGet] at h⟩⟩
+
+/-- **What the invariant says about one collection** `(u, col) ↦ rc` of the reference map, in any
+state with `Inv` and `Rel` (so: after any history): the record is at `owner(u)` and nowhere else,
+with the plan's quota; its shard ids are distinct; the points of the collection are exactly what the
+listed shards hold at `owner(shard id)`; a point id is held by ONE listed shard, once; every shard
+directory of the collection on ANY server is listed and sits at the owner of its id; the counts
+`GetShardsInfo` reports add up to the size of the collection (C15_count's identity, here against the
+real shard contents). -/
+theorem Cluster_refines_readout (cfg : Cfg) (r : Bytes → Name) {c : Cluster} {m : Ref} (hI : Inv r c) (hR : Rel r m c)
+    {u col : Bytes} {rc : RColl} (hm : refGet m (u, col) = some rc) :
+    ∃ rec, dbGet (c.db (r u)) (C16.key u col) = some rec ∧ rec.user = u ∧ rec.coll = col ∧ rec.quota = rc.quota ∧
+      rec.shards.Nodup ∧
+      (rec.shards.flatMap fun sid => (c.sh (r (sidKey sid)) ⟨u, col, sid⟩).getD []).Perm rc.pts ∧
+      (∀ sid ∈ rec.shards, ∀ sid' ∈ rec.shards, ∀ i, held ((c.sh (r (sidKey sid)) ⟨u, col, sid⟩).getD []) i = true →
+        held ((c.sh (r (sidKey sid')) ⟨u, col, sid'⟩).getD []) i = true → sid = sid') ∧
+      ((rec.shards.flatMap fun sid => ((c.sh (r (sidKey sid)) ⟨u, col, sid⟩).getD []).map (·.1)).Nodup) ∧
+      (∀ n sid P, c.sh n ⟨u, col, sid⟩ = some P → n = r (sidKey sid) ∧ sid ∈ rec.shards) ∧
+      (∀ n rec', dbGet (c.db n) (C16.key u col) = some rec' → n = r u ∧ rec' = rec) ∧
+      C15.total (infos cfg r c rec) = (rc.pts.length : Int) :=
+  readout cfg hI hR hm
+
+/-- **Search** (C17_search with shards that all answer): in any state with `Inv` and `Rel`, a search
+in a collection of the reference map returns hits — never "unavailable" —, at most `limit`, no point
+twice, every hit a point of the reference collection, best score first.  `RankOK`: each shard's own
+ranking consists of its points, once each, best first (C03–C06). -/
+theorem Cluster_refines_search (cfg : Cfg) (r : Bytes → Name) {c : Cluster} {m : Ref} (hI : Inv r c) (hR : Rel r m c)
+    {u col : Bytes} {rc : RColl} (hm : refGet m (u, col) = some rc) (q limit offset : Nat) (hrank : RankOK cfg q) :
+    ∃ res, (stepR cfg r c u (.search col q limit offset)).2 = .hits (some res) ∧ res.length ≤ limit ∧
+      (res.map (·.id)).Nodup ∧ (∀ x ∈ res, held rc.pts x.id = true) ∧ res.Pairwise (fun x y => C17.leScore x y = true) :=
+  search_readout cfg hI hR hm q limit offset hrank
+
+/-- **Per-shard limit** (C15_limits as an invariant): if no shard directory holds more than
+`MaxShardPointCount` points, none does after any request (`0 ≤ MaxShardPointCount`: a touched shard
+may be empty). -/
+theorem Cluster_refines_limits (cfg : Cfg) (r : Bytes → Name) {c : Cluster} {m : Ref} {u : Bytes} {op : Op}
+    (hI : Inv r c) (hR : Rel r m c) (hok : StepOK cfg r c m u op) (hC : CountInv cfg c) (h0 : 0 ≤ cfg.maxC) :
+    CountInv cfg (stepR cfg r c u op).1 :=
+  step_count cfg hI hR hok hC h0
+
+/-! ### non-vacuity: three servers, a hand-made hash without ties, two tenants -/
+
+private def b (n : Nat) : Bytes := [BitVec.ofNat 8 n]
+/-- score of `key ++ server` = sum of all bytes mod 3: for one key the three one-byte server names
+1, 2, 3 get three different scores, and different keys have different owners -/
+def exHash : Bytes → Nat := fun x => (x.map (·.toNat)).sum % 3
+def exS : List Name := [b 1, b 2, b 3]
+/-- node 1 lists the servers in order, node 2 rotated, node 3 in another order with a repetition -/
+def exServers (n : Name) : List Name := if n = b 1 then [b 1, b 2, b 3] else if n = b 2 then [b 3, b 1, b 2] else [b 2, b 3, b 1, b 1]
+def exCfg : Cfg :=
+  { maxS := 100, maxC := 2, maxLimit := 75, psz := fun _ => 10, fsize := fun P => 10 * P.length,
+    rank := fun _ P => C17.sortBy C17.leScore (P.map fun p => ⟨p.1, p.2, []⟩), heur := fun l n => l / n + 10 }
+/-- the uuids drawn for new shards: "z", "zz", "zzz", … -/
+def exMk : Nat → String := fun i => String.ofList (List.replicate (i + 1) 'z')
+theorem exMk_inj : ∀ i j, exMk i = exMk j → i = j := by
+  intro i j h
+  have := congrArg String.length h
+  simpa [exMk] using this
+def uA : Bytes := b 67
+def uB : Bytes := b 66
+def cX : Bytes := [120#8, 121#8, 122#8]
+/-- A creates `xyz`, inserts three points (two shards are created: the count limit is 2), B creates a
+collection of the same name, A updates one point and a missing one, searches, deletes a point -/
+def exHist (e1 e2 e3 : Name) : List Req :=
+  [⟨e1, uA, .create cX 10 2⟩, ⟨e2, uA, .insert cX [(3, 30), (1, 10), (2, 20)] exMk⟩, ⟨e3, uB, .create cX 10 2⟩,
+   ⟨e1, uA, .update cX [(2, 21), (9, 90)]⟩, ⟨e2, uA, .search cX 0 2 0⟩, ⟨e3, uA, .delete cX [1]⟩, ⟨e1, uA, .get cX⟩]
+
+-- the routed keys get no ties, the lists have the members of exS
+example : ∀ key ∈ [uA, uB, sidKey "z", sidKey "zz", sidKey "zzz"], C13.NoTies exHash key exS := by decide
+example : ∀ n ∈ exS, ∀ a, a ∈ exServers n ↔ a ∈ exS := by
+  intro n hn a
+  have : ∀ n ∈ exS, (exServers n).all (fun a => exS.contains a) = true ∧ exS.all (fun a => (exServers n).contains a) = true := by decide
+  obtain ⟨h1, h2⟩ := this n hn
+  simp only [all_eq_true, contains_iff_mem] at h1 h2
+  exact ⟨h1 a, h2 a⟩
+-- the owners differ: user A at server 2, user B at server 3, the two shards at servers 1 and 2
+example : (routeOf exHash exS uA, routeOf exHash exS uB, routeOf exHash exS (sidKey "z"), routeOf exHash exS (sidKey "zz")) =
+    (b 2, b 3, b 1, b 2) := by decide
+-- the responses (through nodes 1, 2, 3) …
+example : (run exHash exCfg exServers Cluster.empty (exHist (b 1) (b 2) (b 3))).2 =
+    [.ok, .inserted [], .ok, .failed [(9, .notFound)], .hits (some [⟨3, 30, []⟩, ⟨2, 21, []⟩]), .failed [], .info ["z", "zz"] [1, 1]] := by decide
+-- … are the same through any other choice of entry nodes, and so is the state (read at every server)
+example : (run exHash exCfg exServers Cluster.empty (exHist (b 3) (b 3) (b 1))).2 =
+    (run exHash exCfg exServers Cluster.empty (exHist (b 1) (b 2) (b 3))).2 := by decide
+example : ∀ n ∈ exS, ∀ sid ∈ ["z", "zz"],
+    (run exHash exCfg exServers Cluster.empty (exHist (b 3) (b 3) (b 1))).1.sh n ⟨uA, cX, sid⟩ =
+    (run exHash exCfg exServers Cluster.empty (exHist (b 1) (b 2) (b 3))).1.sh n ⟨uA, cX, sid⟩ := by decide
+-- where things ended up: A's record at server 2, shard "z" = {2} at server 1, shard "zz" = {3} at server 2, nothing elsewhere
+example : let c := (run exHash exCfg exServers Cluster.empty (exHist (b 1) (b 2) (b 3))).1
+    dbGet (c.db (b 2)) (C16.key uA cX) = some ⟨uA, cX, ["z", "zz"], 10⟩ ∧ dbGet (c.db (b 3)) (C16.key uB cX) = some ⟨uB, cX, [], 10⟩ ∧
+    c.db (b 1) = [] ∧
+    c.sh (b 1) ⟨uA, cX, "z"⟩ = some [(2, 21)] ∧ c.sh (b 2) ⟨uA, cX, "zz"⟩ = some [(3, 30)] ∧
+    c.sh (b 2) ⟨uA, cX, "z"⟩ = none ∧ c.sh (b 3) ⟨uA, cX, "z"⟩ = none ∧ c.sh (b 1) ⟨uA, cX, "zz"⟩ = none ∧ c.sh (b 3) ⟨uA, cX, "zz"⟩ = none := by decide
+-- the reference map run on the same calls
+example : (refRun [] (exHist (b 1) (b 2) (b 3))).1 = [((uB, cX), ⟨10, []⟩), ((uA, cX), ⟨10, [(3, 30), (2, 21)]⟩)] := by decide
+example : (refRun [] (exHist (b 1) (b 2) (b 3))).2 =
+    [some .ok, some (.inserted []), some .ok, some (.failed [(9, .notFound)]), none, some (.failed []), none] := by decide
+-- the insert of the history satisfies InsertOK (against the empty collection it meets)
+example : InsertOK exCfg ⟨10, []⟩ ⟨uA, cX, [], 10⟩ [(3, 30), (1, 10), (2, 20)] exMk :=
+  ⟨by decide, by decide, ⟨by decide, by decide⟩, exMk_inj, by intro i; simp⟩
+-- quotas: a fourth collection-less user plan of 1 collection refuses the second; the point quota refuses an over-full batch
+example : (run exHash exCfg exServers Cluster.empty
+    [⟨b 1, uA, .create cX 2 1⟩, ⟨b 2, uA, .create (b 7) 2 1⟩, ⟨b 3, uA, .insert cX [(1, 1), (2, 2), (3, 3)] exMk⟩, ⟨b 2, uA, .create cX 2 1⟩]).2 =
+    [.ok, .quota, .quota, .exists_] := by decide
 
 end Sema.ClusterCompose
